@@ -761,3 +761,86 @@ def binding_sources(root):
             for a in n["arms"]:
                 bind(a["pat"], n["scrut"])
     return out
+
+
+# ---------------------------------------------------------------------------------------------
+# deciding a structural path under a valuation of its scrutinees
+
+def pat_matches(p, v):
+    """Does pattern `p` match value v = ('enum', path) | ('int', n) | ('bool', b) | ('other',) ?  None = cannot tell."""
+    k = p.get("k")
+    if k in ("pwild", "pbind"):
+        return True
+    if k == "por":
+        rs = [pat_matches(q, v) for q in p["pats"]]
+        if any(r is True for r in rs):
+            return True
+        return None if any(r is None for r in rs) else False
+    if k == "ppath":
+        if v[0] == "enum":
+            return p.get("path") == v[1]
+        return False if v[0] == "other" else None
+    if k == "lit":
+        if v[0] in ("int", "bool", "str"):
+            return p.get("v") == v[1]
+        return False if v[0] == "other" else None
+    if k == "prange":
+        if v[0] == "int":
+            s = pat_ints(p)
+            return v[1] in s
+        return False if v[0] == "other" else None
+    return None
+
+
+def path_feasible(path, val, observe=None):
+    """Is the structural path taken when every tracked scrutinee has the value given by val(expr) (-> value or None for an
+    untracked expression)?  Raises Unrecognised when a branch on an untracked expression is met.  `observe(item)` is called
+    for the non-branch items (assignments, evaluated calls, lets) in path order, so that val can follow stores."""
+    import hirpp
+
+    def atom(e):
+        e = simp(e)
+        if e.get("k") == "bin" and e.get("op") in ("Eq", "Ne") and "callee" not in e or (e.get("k") == "bin" and e.get("op") in ("Eq", "Ne")):
+            l, r = val(e["l"]), val(e["r"])
+            if l is not None and r is not None and l[0] != "other" and r[0] != "other":
+                return (l == r) if e["op"] == "Eq" else (l != r)
+            if l is not None and r is not None and (l[0] == "other") != (r[0] == "other"):
+                return e["op"] == "Ne"
+        v = val(e)
+        if v is not None and v[0] == "bool":
+            return v[1]
+        return None
+
+    for t in path.trace:
+        if t[0] not in ("cond", "arm"):
+            if observe is not None:
+                observe(t)
+            continue
+        if t[0] == "cond":
+            c = simp(t[1])
+            if c.get("k") == "letexpr":
+                v = val(c["init"])
+                m = pat_matches(c["pat"], v) if v is not None else None
+                if m is None:
+                    raise Unrecognised(f"`if let` on `{hirpp.expr(c['init'])[:50]}` (line {c.get('ln', '?')}) cannot be decided")
+                if m != t[2]:
+                    return False
+                continue
+            if bool_eval(c, atom) != t[2]:
+                return False
+        elif t[0] == "arm":
+            v = val(t[1])
+            if v is None:
+                raise Unrecognised(f"match on `{hirpp.expr(t[1])[:50]}` (line {simp(t[1]).get('ln', '?')}) cannot be decided")
+            m = pat_matches(t[2], v)
+            if m is None:
+                raise Unrecognised("pattern cannot be decided")
+            if not m:
+                return False
+            for q in t[3]:
+                mq = pat_matches(q, v)
+                if mq is None:
+                    raise Unrecognised("pattern cannot be decided")
+                if mq:
+                    return False
+    return True
